@@ -1,5 +1,5 @@
 (* C10 -- Reported volume, amounts and concentrations always agree with contents. *)
-Require Import Base Units Contents Container ContainerThm ContainerThm2 Dilute Solve Plate PlateThm SizeThm Prog HistoryThm PlateObs.
+Require Import Base Units Contents Container ContainerThm ContainerThm2 Dilute Solve Plate PlateThm SizeThm Prog HistoryThm PlateObs PlateVol.
 
 (* after any history the cached volume is the sum of the volumes of the contents (part of the invariant) *)
 Theorem C10_volume_is_sum_after_any_history : forall cf ops, Forall wf_op ops ->
@@ -72,3 +72,16 @@ Theorem C10_slice_volumes_frame : forall cf p ws' r pr,
   slice_volumes cf (with_wells p ws') r pr = slice_volumes cf p r pr.
 Proof. exact slice_volumes_frame. Qed.
 Print Assumptions C10_slice_volumes_frame.
+
+(* what the container reports plus what the plate reports as its total is the same before and after a dispense into a
+   region and a collection from a region, in any unit *)
+Theorem C10_container_to_region_reported_volume : forall cf c p r q c' p' pr,
+  Inv cf c -> PInv cf p -> c_to_p cf c p r q = Ok (c', p') ->
+  get_volume cf c' pr + plate_get_volume cf p' pr == get_volume cf c pr + plate_get_volume cf p pr.
+Proof. exact c_to_p_reported_volume. Qed.
+Print Assumptions C10_container_to_region_reported_volume.
+Theorem C10_region_to_container_reported_volume : forall cf p r c q p' c' pr,
+  Inv cf c -> PInv cf p -> p_to_c cf p r c q = Ok (p', c') ->
+  get_volume cf c' pr + plate_get_volume cf p' pr == get_volume cf c pr + plate_get_volume cf p pr.
+Proof. exact p_to_c_reported_volume. Qed.
+Print Assumptions C10_region_to_container_reported_volume.
